@@ -128,6 +128,70 @@ def expected_count(cnf):
     return (2 ** (natoms - len(ingroup))) * prod
 
 
+def constraint_stream(rng, n):
+    """Yield (src, problem or None): compile CNFs that carry a TrueConstraint / ClauseConstraint on query nodes."""
+    from problog.constraint import TrueConstraint, ClauseConstraint, ConstraintAD
+    from problog.ddnnf_formula import DDNNF
+    from problog.evaluator import SemiringProbability
+    done = 0
+    tries = 0
+    while done < n and tries < 6 * n:
+        tries += 1
+        P = spine.gen_program(rng, evidence=False)
+        src = spine.to_src(P)
+        st = spine.run_pipeline(src, keep_nnf=False, timeout=20)
+        if st.error or st.cnf.is_trivial():
+            continue
+        qnodes = [(str(nm), k) for nm, k, l in st.cnf.get_names_with_label() if l == st.cnf.LABEL_QUERY and k]
+        if not qnodes:
+            continue
+        done += 1
+        nm, k = rng.choice(qnodes)
+        # a fresh CNF object with the extra constraint
+        from problog.cnf_formula import CNF
+        cnf = CNF.create_from(st.dag)
+        if rng.random() < 0.6 or len(qnodes) < 2:
+            cons = TrueConstraint(k)
+            cnodes = [k]
+        else:
+            nm2, k2 = rng.choice(qnodes)
+            cons = ClauseConstraint([k, k2])
+            cnodes = [k, k2]
+        cnf.add_constraint(cons)
+        try:
+            dd = spine.with_timeout(20, DDNNF.create_from, cnf)
+        except Exception as e:
+            yield src, None
+            continue
+        copies = [c for c in dd.constraints() if type(c).__name__ == type(cons).__name__]
+        if len(copies) != 1:
+            yield src + " %% + %s" % cons, "constraint %s not carried over to the d-DNNF (found %d copies)" % (cons, len(copies))
+            continue
+        # renamed node ids must point at the d-DNNF atoms that stand for the same CNF variables
+        ident2node = {}
+        for i, nd in enumerate(dd._nodes, 1):
+            if type(nd).__name__ == "atom":
+                ident2node[nd.identifier] = i
+        got = [copies[0].node] if isinstance(copies[0], TrueConstraint) else list(copies[0].nodes)
+        exp = [(1 if c > 0 else -1) * ident2node.get(abs(c), None) if ident2node.get(abs(c)) else None for c in cnodes]
+        if None not in exp and sorted(got) != sorted(exp):
+            yield src + " %% + %s" % cons, "constraint %s copied with node ids %s, the d-DNNF atoms of its variables are %s" % (cons, got, exp)
+            continue
+        # semantics: with TrueConstraint(p) the normalised probability of p is 1
+        if isinstance(cons, TrueConstraint) and None not in exp:
+            try:
+                r = dd.evaluate(semiring=SemiringProbability())
+                v = r.get([t for t in r if str(t) == nm][0]) if any(str(t) == nm for t in r) else None
+                if v is not None and abs(v - 1.0) > 1e-9:
+                    yield src + " %% + %s" % cons, "P(%s | constraint '%s is true') = %r, expected 1" % (nm, nm, v)
+                    continue
+            except Exception as e:
+                if type(e).__name__ not in ("InconsistentEvidenceError",):
+                    yield src + " %% + %s" % cons, "evaluation with constraint %s raised %s" % (cons, type(e).__name__)
+                    continue
+        yield src, None
+
+
 def run(ctx):
     ctx.rule = ("CNFs of generated programs (C01 fragment) compiled with the bundled dsharp; a case = one compiled CNF; "
                 "distinct = distinct DIMACS text; non-trivial = at least one OR line in the .nnf")
@@ -205,6 +269,13 @@ def run(ctx):
             else:
                 exp = "error " + st.error[1].replace("Error", "") if st.error[1] != "InvalidValue" else "error InvalidValue"
             meta.append(("EVAL", src, exp))
+    # ---- constraints other than AD constraints (TrueConstraint / ClauseConstraint, as the MAP / MPE tasks add them):
+    # they must be carried over to the d-DNNF with node ids renamed to the d-DNNF's atoms, and the evaluator must then
+    # normalise (P(p | constraint "p is true") = 1).  Python-side oracle only (the Lean loader model covers AD constraints).
+    for k, (src, problem) in enumerate(constraint_stream(rng, ctx.budget(20, 300))):
+        ctx.count("constraint-carry case")
+        if problem:
+            problems.append((src, problem, "non-AD constraint"))
     first_diff = None
     verdicts = {}
     if drv is not None:
